@@ -430,9 +430,11 @@ def run(repo, chk):
         for c_ in ast.walk(fi_.node):
             if isinstance(c_, ast.Call) and isinstance(c_.func, ast.Attribute) and c_.func.attr == "clone":
                 for k_ in c_.keywords:
-                    if k_.arg in ("captures", "children") and isinstance(k_.value, ast.BinOp) and isinstance(k_.value.op, ast.Add):
+                    from ..astq import concat_parts
+                    parts_ = concat_parts(k_.value) if k_.arg in ("captures", "children") else []
+                    if len(parts_) >= 2:
                         n_ += 1
-                        if not norm(k_.value.left).endswith("." + k_.arg):
+                        if not (parts_[0][0] == "seq" and norm(parts_[0][1]).endswith("." + k_.arg)):
                             bad_.append(norm(k_.value))
         chk.ob("R15.5", f"selector.{fname}:appends-in-source-order", not bad_ and n_ >= 1, fi_.where,
                f"new captures / children are appended after the existing ones ({n_} site(s)): `f(a) > x` and `f(a, !x)` list their captures in the same order" + (f" -- {bad_}" if bad_ else ""))
